@@ -84,16 +84,18 @@ Print Assumptions C19_strong_modulo_simplify.
    fixpoint simplifications incl. "predicates not enlarged", C01 / C08 for the vocabulary of
    tau-star / mu).  Two tasks with the same programs, representation and direction and ANY values of
    the simplify, eq-break and decomposition flags - in particular all 8 combinations - whose
-   problem lists the model computes ([SOk]: no overflow panic F11, the post-gamma fixpoint loop
-   stopped within the model's fuel) are refuted by exactly the same interpretations. *)
+   problem lists the model computes ([SOk]: no overflow panic F11, [fuel] passes of the post-gamma
+   fixpoint loop sufficed - for EVERY fuel; sufficiently large fuels always suffice,
+   C03_never_nonterminating, and give the same lists, C03_fuel_monotone) are refuted by exactly the
+   same interpretations. *)
 Theorem C19_strong :
-  forall (t t' : strong_task) (pbs pbs' : list problem),
+  forall (fuel : nat) (t t' : strong_task) (pbs pbs' : list problem),
     st_left t = st_left t' /\ st_right t = st_right t' /\
     st_direction t = st_direction t' /\ st_repr t = st_repr t' ->
-    strong_decompose_full t = SOk pbs -> strong_decompose_full t' = SOk pbs' ->
-    no_symbol_pred_clash_full t -> no_symbol_pred_clash_full t' ->
+    strong_decompose_full_fuel fuel t = SOk pbs -> strong_decompose_full_fuel fuel t' = SOk pbs' ->
+    no_symbol_pred_clash_full_fuel fuel t -> no_symbol_pred_clash_full_fuel fuel t' ->
     forall (FI : fint) (M : pint), refutes_some FI M pbs <-> refutes_some FI M pbs'.
-Proof. exact C19_strong_proof. Qed.
+Proof. exact C19_strong_fuel_proof. Qed.
 Print Assumptions C19_strong.
 
 (* external-equivalence tasks, eq-break and decomposition flags (the simplify flag changes the
